@@ -16,10 +16,12 @@ def _lit(rng, clock, v):
 
 
 def gen_program(rng, clock=None, n_events=None, with_bad=True, with_cancel=True, horizon=None, faults=False,
-                warm=None, beyond=True):
+                warm=None, beyond=True, bigint=False):
     clock = clock or rng.choice(["float", "int", "duration"])
     length = horizon or rng.choice([10, 20, 50])
     start = rng.choice([0, 0, 0, 5]) if clock != "duration" else 0
+    if bigint and clock == "int" and rng.random() < 0.25:
+        start = 2 ** 60 + rng.randint(0, 3)        # integer clocks far beyond 2**53 (e.g. nanosecond time stamps)
     warmup = warm if warm is not None else rng.choice([0, 0, 2, 5, length // 2, length])
     n = n_events or rng.randint(5, 40)
     step = rng.choice([1, 1, 2, 0.5, 0.25]) if clock != "int" else rng.choice([1, 1, 2, 3])
@@ -30,6 +32,7 @@ def gen_program(rng, clock=None, n_events=None, with_bad=True, with_cancel=True,
     tags = []
     counter = [0]
     pct = rng.random() < 0.35
+    wide_prio = rng.random() < 0.25      # priorities outside the 'typical' 1..10 are ints like any other
 
     def new_tag():
         counter[0] += 1
@@ -39,7 +42,7 @@ def gen_program(rng, clock=None, n_events=None, with_bad=True, with_cancel=True,
     def sched_action(cur, from_init):
         """one scheduling action issued at time `cur` (numeric); returns (action, child tag, child time|None)"""
         r = rng.random()
-        prio = rng.choice([1, 3, 5, 5, 5, 7, 10])
+        prio = rng.choice([1, 3, 5, 5, 5, 7, 10, 0, -2] if wide_prio else [1, 3, 5, 5, 5, 7, 10])
         tag = new_tag()
         if r < 0.22:
             return ["now", prio, tag], tag, cur
